@@ -135,6 +135,39 @@ def run(ctx):
                 else:
                     ctx.fail("C04-R2", ct.path, "branch mapping", "TreeNode{yes <- %s, no <- %s, question <- %s}" % (sorted(ys), sorted(ns), sorted(qs)), cm.loc_of(st["span"]))
         ctx.anchor("C04-R2", "TreeNode::Node literals in convert_tree", n, 1, ct.loc())
+        # the bare-leaf shortcut drops the node's question: legitimate only for the pseudo node of a
+        # question-less tree, which the text parser writes with yes == no
+        early = []
+        for bb, e, item in paths.return_exprs(ct, eb):
+            if not paths.is_ok(e):
+                continue
+            gs0 = paths.guards(ct, bb, eb)
+            after_node_loop = any(g[0] == "none" and "next(orig_tree.nodes)" in show(g[1]) for g in gs0)
+            if not after_node_loop:
+                early.append((bb, e))   # an Ok(Tree) produced without walking all nodes
+        if not early:
+            ctx.note("convert_tree has no bare-leaf shortcut (every tree goes through the general path)")
+        for bb, e in early:
+            gs = paths.guards(ct, bb, eb)
+            one = same = False
+            for g in gs:
+                if g[0] in ("true", "false"):
+                    pos, c = paths.bool_atoms(g)
+                    s = show(c)
+                    if c[0] == "bin" and c[1] == "Eq" and pos and "len(orig_tree.nodes)" in s and c[3][0] == "c" and c[3][1] == 1:
+                        one = True
+                    if c[0] == "call" and (c[1].endswith("PartialEq>::eq") or c[1].endswith("PartialEq::eq")) and pos:
+                        a0, a1 = show(c[2][0]), show(c[2][1])
+                        if {a0.split(".")[-1], a1.split(".")[-1]} == {"yes", "no"} and a0.rsplit(".", 1)[0] == a1.rsplit(".", 1)[0]:
+                            same = True
+                    if c[0] == "call" and (c[1].endswith("PartialEq>::ne") or c[1].endswith("PartialEq::ne")) and not pos:
+                        a0, a1 = show(c[2][0]), show(c[2][1])
+                        if {a0.split(".")[-1], a1.split(".")[-1]} == {"yes", "no"}:
+                            same = True
+            if same:
+                ctx.ok("C04-R2", "bare-leaf shortcut is taken only when the lone node has yes == no (a question-less tree)", ct.loc())
+            else:
+                ctx.fail("C04-R2", ct.path, "bare-leaf shortcut", "a tree is collapsed into a single leaf without checking yes == no: a one-question tree with two different leaves loses its question and its no-branch leaf (single-node=%s, yes==no=%s)" % (one, same), ct.loc())
         # leaves are appended after the inner nodes, in sorted pdf order, and referenced by
         # binary_search position + nodes.len()
         txt = show(eb.at(None).local(0))
